@@ -12,6 +12,8 @@ mod hist;
 mod sem;
 mod evidence;
 mod campaign;
+mod c03;
+mod c07;
 
 use rayon::prelude::*;
 
@@ -53,6 +55,8 @@ fn check(id: &str, tier: &str, seed: u64) -> i32 {
         "C05" => "C05",
         "C06" => "C06",
         "C15" => "C15",
+        "C03" => "C03",
+        "C07" => "C07",
         _ => {
             eprintln!("unknown property {}", id);
             return 2;
@@ -76,7 +80,11 @@ fn check(id: &str, tier: &str, seed: u64) -> i32 {
             }
         }
     }
-    let r = campaign::run_sem_campaign(prop, tier, seed);
+    let r = match prop {
+        "C03" => c03::run_c03(tier, seed),
+        "C07" => c07::run_c07(tier, seed),
+        _ => campaign::run_sem_campaign(prop, tier, seed),
+    };
     if violations + r.violations > 0 {
         1
     } else if r.inconclusive {
@@ -93,6 +101,14 @@ fn replay_file(path: &std::path::Path) -> Result<Option<String>, String> {
         Some("sem") => {
             let rep: campaign::SemReplay = serde_json::from_value(v).map_err(|e| e.to_string())?;
             campaign::replay_sem(&rep)
+        }
+        Some("c07") => {
+            let rep: c07::C07Replay = serde_json::from_value(v).map_err(|e| e.to_string())?;
+            c07::replay_c07(&rep)
+        }
+        Some("c03") => {
+            let rep: c03::C03Replay = serde_json::from_value(v).map_err(|e| e.to_string())?;
+            c03::replay_c03(&rep)
         }
         other => Err(format!("unknown replay kind {:?}", other)),
     }
